@@ -5,11 +5,13 @@
 package zkfac
 
 //@ func (*Proof).Verify
+//@   use bits
 //@   nopanic[C05]
 //@   modifies hstate(hash)
 //@   requires public.N != nil && pedok(public.Aux) && hash != nil && hash.h != nil
 
 //@ func challenge
+//@   use bits
 //@   nopanic[C05]
 //@   inline
 //@   requires hash != nil && hash.h != nil && public.N != nil && pedok(public.Aux)
